@@ -45,7 +45,7 @@ function decodeStrLit(s) {
     if (n in simple) out += simple[n]
     else if (n === '\n' || n === '\u2028' || n === '\u2029') continue // line continuation
     else if (n === '\r') { if (body[i + 1] === '\n') i++; continue }
-    else if (n === 'x') { out += String.fromCharCode(parseInt(body.substr(i + 1, 2), 16)); i += 2 } else if (n === 'u') { out += String.fromCharCode(parseInt(body.substr(i + 1, 4), 16)); i += 4 } else out += n
+    else if (n === 'x') { out += String.fromCharCode(parseInt(body.substr(i + 1, 2), 16)); i += 2 } else if (n === 'u' && body[i + 1] === '{') { const j = body.indexOf('}', i); out += String.fromCodePoint(parseInt(body.slice(i + 2, j), 16)); i = j } else if (n === 'u') { out += String.fromCharCode(parseInt(body.substr(i + 1, 4), 16)); i += 4 } else out += n
   }
   return out
 }
